@@ -240,7 +240,11 @@ impl UnitRunner for C14 {
       }
       // operand forms: literal/variable on either side take different dispatch arms
       if a_seq.len() <= 2 && b_seq.len() <= 2 {
-        for (fi, (l, r)) in [(a_lit.as_str(), "b"), ("a", b_lit.as_str()), (a_lit.as_str(), b_lit.as_str())].iter().enumerate() {
+        // mutable variables hold a reference to their cell: the operators must read through it
+        let mutable_ok = s.run(&format!("~ma := {}", a_lit)).is_value() && s.run(&format!("~mb := {}", b_lit)).is_value();
+        let mut forms: Vec<(&str, &str)> = vec![(a_lit.as_str(), "b"), ("a", b_lit.as_str()), (a_lit.as_str(), b_lit.as_str())];
+        if mutable_ok { forms.push(("ma", "mb")); forms.push(("ma", "b")); forms.push(("a", "mb")); }
+        for (fi, (l, r)) in forms.iter().enumerate() {
           for (n, op) in OPS.iter().enumerate() {
             out.evaluations += 1;
             let o = s.run(&format!("f{}x{} := {} {} {}", fi, n, l, op, r));
